@@ -1,7 +1,8 @@
 // ---- unit `edit`: Melda::create_object / update_object / delete_object / remove_object (src/melda.rs) ----
 // A user edit of ONE object is recorded as a new STAGED revision in that object's tree; the identifier of that revision is
 // `child_of(parent.index + 1, digest of the content, parent identifier)` (C19: same edit of the same version => same revision),
-// nothing else moves (C15 frame), and an array edit is recorded iff its edit script is non-empty (C16 / array round trip).
+// nothing else moves (frame), resubmitting the same content changes nothing (C04), and an array edit is recorded iff its
+// edit script is non-empty, whatever the script's digest (C16: every submitted array is a stored version).
 
 /// R6 (lock erasure): mirror of `struct Melda` (field list checked against /repo).
 /// `RwLock<BTreeMap<String, Mutex<RevisionTree>>>` -> `BTreeMap<String, RevisionTree>`, `RwLock<DataStorage>` -> `DataStorage`,
@@ -436,8 +437,3 @@ pub proof fn lemma_array_edit_iff_order_differs(data: DataStorage, t: RevisionTr
     requires is_arr(uuid),
     ensures must_record(data, t, w, uuid, obj) <==> submitted_order(obj) != spec_order(data, t, w),
 { }
-
-// ---------------------------------------------------------------- small shims
-// derive(Clone) on String / `&str -> String`
-#[verifier::external_body]
-pub fn vx_str_clone(a: &String) -> (r: String) ensures r@ == a@ { unimplemented!() }
